@@ -225,6 +225,16 @@ def make_profiles(aa):
             def f_nested(self, grid, *args, **kwargs):
                 return self.inner(grid, **kwargs)
 
+            # -- three levels (potential -> deflections -> convergence), each transform-decorated and forwarding **kwargs
+            @dec.transform
+            def inner2(self, grid, *args, **kwargs):
+                return self.inner(grid, **kwargs)
+
+            @dec.to_array
+            @dec.transform
+            def f_nested3(self, grid, *args, **kwargs):
+                return self.inner2(grid, **kwargs)
+
             # -- decorated functions whose body combines the results of other decorated functions (a galaxy summing its profiles):
             #    what they return already is an autoarray structure, built for the grid the BODY received
             @dec.to_array
@@ -526,13 +536,16 @@ def check_kwargs_and_nesting(ctx, p, grid, W, frame=None):
     for how, kw in (("flag omitted", {}), ("is_transformed=False", {"is_transformed": False})):
         p.log.clear()
         p.frame_log.clear()
-        ok, res = ctx.guarded("transform.exception", lambda: p.f_nested(grid, **kw))
-        if ok:
-            got = _np(res.slim) if hasattr(res, "slim") else _np(res)
-            good = (len(p.frame_log) == 1 and len(p.log) == 1 and p.log[0][1].shape == frame.shape and np.array_equal(p.log[0][1], frame)
-                    and np.array_equal(got, p.tags.t(frame)))
-            ctx.check(good, "transform.nested_once", caller=how, transforms=len(p.frame_log), expected_received=frame,
-                      received=lambda: p.log[0][1] if p.log else None, **W)
+        for depth, meth in ((2, "f_nested"), (3, "f_nested3")):
+            p.log.clear()
+            p.frame_log.clear()
+            ok, res = ctx.guarded("transform.exception", lambda: getattr(p, meth)(grid, **kw))
+            if ok:
+                got = _np(res.slim) if hasattr(res, "slim") else _np(res)
+                good = (len(p.frame_log) == 1 and len(p.log) == 1 and p.log[0][1].shape == frame.shape and np.array_equal(p.log[0][1], frame)
+                        and np.array_equal(got, p.tags.t(frame)))
+                ctx.check(good, "transform.nested_once", caller=how, nesting_depth=depth, transforms=len(p.frame_log), expected_received=frame,
+                          received=lambda: p.log[0][1] if p.log else None, **W)
     p.log.clear()
     p.frame_log.clear()
 
